@@ -19,5 +19,15 @@ FAMILIES = {
 }
 
 
+_spec3 = importlib.util.spec_from_file_location("c03", os.path.join(os.path.dirname(__file__), "C03.py"))
+_c03 = importlib.util.module_from_spec(_spec3)
+_spec3.loader.exec_module(_c03)
+
+
 def run(ctx):
     _c01.run(ctx, pid=PID, families=FAMILIES[PID])
+    if PID == "C02":
+        # the input that keeps per-(source, stream) offsets judges the notifications it receives (see C03.commit_order_stage)
+        ctx.classify(_c03.commit_order_stage(ctx))
+        ctx.assumptions += ["file-input stage: the input's own 'offset corruption' check is the judge (commit not advancing the offset of "
+                            "its source and stream); lost lines of those histories are C03's business"]
